@@ -55,6 +55,7 @@ var fixedPairs = []fixedPair{
 	{Query: `{ x: n y: n me { a: name b: name } }`},
 	// one field node merged with different partners in different places (memo key = type + every selection position)
 	{Query: `{ me { ...F } maybe { ...F friend { id } } } fragment F on Person { friend { name } }`},
+	{Query: `{ me { ...F friend { id } } maybe { ...F friend { mood } } } fragment F on Person { friend { name } }`},
 	// the same fragment reached through another fragment and directly: visited once (shared visited set)
 	{Query: `{ maybe { ...A ...B } } fragment A on Person { ...B name } fragment B on Person { friend { name } id }`},
 	{Query: `{ pet { ...A ... on Cat { ...C } } } fragment A on Pet { ...C age } fragment C on Cat { friend { age } lives }`},
@@ -125,8 +126,31 @@ func (h *harness) exhaustive() {
 			}
 		}
 		if !found {
+			// too many field invocations for every assignment: sample assignments of one base world instead
 			complete = false
-			h.run.Note("fixed pair %d: no base world within %d assignments", pi, capCombos)
+			seed = uint64(pi)*1000 + 1
+			w := gqlgen.BaseWorld(hx.NewRand(seed), s, req, op)
+			sr := hx.NewRand(seed + 7)
+			nsamp := capCombos / 4
+			for n := 0; n < nsamp && h.failures < maxFailures; n++ {
+				w = gqlgen.BaseWorld(hx.NewRand(seed), s, req, op)
+				if n > 0 {
+					for i, site := range w.Sites {
+						switch sr.Intn(6) {
+						case 0:
+							w.Inject(i, "null")
+						case 1:
+							if site.IsEntry {
+								w.Inject(i, "err")
+							}
+						}
+					}
+				}
+				c := &Case{Schema: s, Query: p.Query, Doc: dd, Variables: p.Vars, World: w.Root, Note: fmt.Sprintf("fixed pair %d (sampled)", pi)}
+				h.check(c, fmt.Sprintf("exhaustive-%02d-sampled", pi))
+				total++
+			}
+			h.run.Note("fixed pair %d: more than %d assignments, %d sampled instead", pi, capCombos, nsamp)
 			continue
 		}
 		choice := make([]int, len(opts))
